@@ -141,8 +141,10 @@ def run_parser(datadir, cb, dump=None, coin=None, start=None, end=None, verify=F
     if threads is not None:
         e['RAYON_NUM_THREADS'] = str(threads)
     if trace:
-        if os.path.exists(trace):
-            os.unlink(trace)
+        # line 1 of a trace is the command the harness ran (the hooks append after it)
+        with open(trace, 'w') as f:
+            f.write(json.dumps({'ev': 'cmd', 'cb': cb, 'start': start or 0, 'end': -1 if end is None else end,
+                                'verify': bool(verify), 'coin': coin or 'bitcoin'}) + '\n')
         e['RBP_VERIF_TRACE'] = trace
     if abort_at is not None:
         e['RBP_VERIF_ABORT_AT'] = str(abort_at)
@@ -176,7 +178,7 @@ def run_parser(datadir, cb, dump=None, coin=None, start=None, end=None, verify=F
                 if os.path.isfile(p):
                     with open(p, 'rb') as fh:
                         files[f] = fh.read()
-    return Res(rc, out, err, files, read_events(trace), dt, timed_out, listing)
+    return Res(rc, out, err, files, read_events(trace)[1:] if trace else [], dt, timed_out, listing)
 
 
 def run_driver(mode, lines, timeout=600, env=None):
